@@ -5,9 +5,8 @@ import time
 
 from . import build
 
-TARGETS = [
-    ("fam_core", "fib-asan"), ("fam_core", "thr-tsan"), ("fam_core", "thr-asan"),
-]
+FAMS = ["fam_core", "fam_exec", "fam_when", "fam_wait", "fam_shared", "fam_wg"]
+TARGETS = [(f, v) for f in FAMS for v in ("fib-asan", "thr-tsan", "thr-asan")] + [("fam_stdlocks", "fib-asan")]
 
 
 def main():
